@@ -70,6 +70,30 @@ func Install(drv *sched.Driver) {
 		})
 	}
 	simhook.YieldHandler = func(s string) { drv.ParkUntil("", "yield", s, nil) }
+	// A sync.Once whose function does I/O: a second caller would block on the
+	// Once's internal mutex, which the bubble does not see as durably blocked.
+	// It is parked here until nobody is inside.
+	var onceMu sync.Mutex
+	inside := map[any]int{}
+	simhook.OnceHandler = func(key any, enter bool) {
+		if !enter {
+			onceMu.Lock()
+			inside[key]--
+			if inside[key] <= 0 {
+				delete(inside, key)
+			}
+			onceMu.Unlock()
+			return
+		}
+		drv.ParkUntil("", "once", site(3), func() bool {
+			onceMu.Lock()
+			defer onceMu.Unlock()
+			return inside[key] == 0
+		})
+		onceMu.Lock()
+		inside[key]++
+		onceMu.Unlock()
+	}
 }
 
 // Uninstall removes the handlers.
@@ -77,4 +101,5 @@ func Uninstall() {
 	simhook.LockHandler = nil
 	simhook.RLockHandler = nil
 	simhook.YieldHandler = nil
+	simhook.OnceHandler = nil
 }
